@@ -137,6 +137,7 @@ Inductive op :=
 | SetKsRead                       (* _set_keyspace_for_all_conns: unlocked reads of is_shutdown, _connection *)
 | SetKsInc (c : nat)              (* Connection.set_keyspace_async `with self.lock` *)
 | SetSoe                          (* ConnectionHeartbeat: owner.shutdown_on_error = True *)
+| HbRead                          (* ConnectionHeartbeat.run: owner.get_connections() -- the pool's current connection, if any *)
 | QueryCheck                      (* ResponseFuture._query: unlocked read of pool.is_shutdown before borrowing *)
 | QuerySend (c : nat).            (* ResponseFuture._query: connection.send_msg refuses (ConnectionShutdown if dead, else ConnectionBusy) *)
 
@@ -247,6 +248,7 @@ Definition step (s : state) (o : op) : state * list out :=
       if valid s c && (c_inflight (getc s c) <? maxid s) then (updc s c k_take, [OBool true]) else (s, [OBool false])
   | SetSoe => (set_soe s true, [])
   | QueryCheck => (s, [OBool (shut s)])
+  | HbRead => (s, match cur s with Some c => [OConn c; OBool (dead (getc s c))] | None => [ONone] end)
   | QuerySend c => (s, [OBool (dead (getc s c))])
   end.
 
@@ -351,6 +353,16 @@ Definition setks_prog (down : bool) : prog :=
         | _ => Ret OWait end)
     | _ => Ret ONone end).
 
+(* one pass of ConnectionHeartbeat.run over this pool, idle live connection, SUPPORTED answered: HeartbeatFuture reserves an
+   in-flight slot under connection.lock; after the answer the slot is given back under connection.lock and the pool is told
+   (return_connection(stream_was_orphaned=True): flags, trash check) *)
+Definition heartbeat_prog (down : bool) : prog :=
+  Do HbRead (fun r => match r with
+    | [OConn c; OBool false] => Do (SetKsInc c) (fun r2 => match first r2 with
+        | OBool true => Do (ReturnDec c) (fun _ => return_tail c down)
+        | _ => Ret OWait end)
+    | _ => Ret ONone end).
+
 Definition task_prog (ok : bool) : prog :=
   Do ReplaceCheck (fun r => match first r with
     | OBool true => Do (ReplaceConnect ok) (fun r2 => match first r2 with
@@ -363,7 +375,7 @@ Definition task_prog (ok : bool) : prog :=
 Inductive mop0 :=
 | MBorrow (fuel : nat) | MReturn (c : nat) (down : bool) | MOrphan (c : nat) (down : bool) | MLate (c : nat)
 | MDefunct (c : nat) | MTask (ok : bool) | MShutdown | MSetSoe | MReleased
-| MQueryBusy (fuel : nat) (down : bool) | MSetKs (down : bool).
+| MQueryBusy (fuel : nat) (down : bool) | MSetKs (down : bool) | MHeartbeat (down : bool).
 
 Definition prog_of (m : mop0) : prog :=
   match m with
@@ -378,6 +390,7 @@ Definition prog_of (m : mop0) : prog :=
   | MReleased => Do Notify (fun _ => Ret ONone)
   | MQueryBusy f d => query_busy_prog f d
   | MSetKs d => setks_prog d
+  | MHeartbeat d => heartbeat_prog d
   end.
 
 (* which steps start at an instrumented point of the real code (a lock acquisition, the factory call, the
@@ -385,7 +398,7 @@ Definition prog_of (m : mop0) : prog :=
    preceding interrupt slot *)
 Definition hooked (o : op) : bool :=
   match o with
-  | GetConn | ShutdownCloseMain | Orphan _ | ConnDefunct _ | SetSoe | SetKsRead | QueryCheck => false
+  | GetConn | ShutdownCloseMain | Orphan _ | ConnDefunct _ | SetSoe | SetKsRead | QueryCheck | HbRead => false
   | _ => true
   end.
 
